@@ -151,11 +151,20 @@ def run(ck: Check):
         {"name": "doe-call", "kind": "doe", "mode": "call",
          "samples": [[1.0, 1.0], [0.5, -1.0], [2.0, 0.25], [1.0, 1.0], [-1.5, 3.0]]},
     ]
+    S5 = [[1.0, 1.0], [0.5, -1.0], [2.0, 0.25], [1.0, 1.0], [-1.5, 3.0]]
+    configs += [
+        # at each iteration only: the newest entry of the file holds only the first output
+        {"name": "doe-iter", "kind": "doe", "mode": "iter", "samples": S5},
+        # objective and constraint computed by separate discipline executions (IDF, no coupling);
+        # the constraint raises ValueError at one sample: the DOE skips it, its partial entry stays
+        {"name": "doe-call-idf-failing-sample", "kind": "doe", "mode": "call", "samples": S5,
+         "system": "uncoupled", "formulation": "IDF", "fail_g": [[0.5, -1.0]]},
+    ]
     if ck.thorough:
         configs += [
             {"name": "mdo-both", "kind": "mdo", "mode": "both", "max_iter": 8},
-            {"name": "doe-iter", "kind": "doe", "mode": "iter",
-             "samples": [[1.0, 1.0], [0.5, -1.0], [2.0, 0.25], [1.0, 1.0], [-1.5, 3.0]]},
+            {"name": "doe-iter-idf-failing-sample", "kind": "doe", "mode": "iter", "samples": S5,
+             "system": "uncoupled", "formulation": "IDF", "fail_g": [[2.0, 0.25]]},
             {"name": "mdo-call-normalized", "kind": "mdo", "mode": "call", "max_iter": 8, "normalize": True},
             {"name": "mdo-iter-normalized", "kind": "mdo", "mode": "iter", "max_iter": 6, "normalize": True},
         ]
@@ -173,6 +182,11 @@ def run(ck: Check):
         for e in ref["db"]:
             req_by_pid[R.pid(e["pt"])] = sorted(OUT_IDS[o] for o in e["vals"])
         ref_vals = {(R.pid(e["pt"]), n): v for e in ref["db"] for n, v in e["vals"].items()}
+        for e in events:
+            # an output the run needs at a point but whose computation raises (a DOE skips the sample)
+            if e["ev"] == "exec_failed":
+                q = R.pid(e["p"])
+                req_by_pid[q] = sorted(set(req_by_pid.get(q, [])) | {OUT_IDS[o] for o in e["outs"]})
 
         def req_list():
             n = len(R.points)
